@@ -164,14 +164,21 @@ Definition sd_delattr (s : sd) (k : key) : res sd :=
 (* read-only observations made in the middle of a history.  QGet: d[k]; QK2K: d.key2keys(k);
    QV2K: d.value2keys(v); QPure: an observation that never raises (k in d, iteration, len, keys(),
    hasattr, calling the StrategyDict ...); QBad: a lookup with an unhashable argument (TypeError). *)
-Inductive query := QGet (k : key) | QK2K (k : key) | QV2K (v : val) | QPure | QBad.
+Inductive query := QGet (k : key) | QK2K (k : key) | QV2K (v : val) | QPure | QBad
+  (* QTup kt: a TUPLE as the key of a lookup: d[kt] / kt in d / d.get(kt) go straight to the dict storage and find
+     something exactly when kt is a stored key tuple; QNo: lookups that never find anything (k in d, d.get(k) and
+     d.pop(k) with a non-tuple key, d.pop(()), ...).  The flag of such a step is "nothing found / KeyError". *)
+  | QTup (kt : tup) | QNo.
 
 (* OSetBad kt: "d[kt] = value" with an unhashable value (list, dict, set, object with __eq__ and no
    __hash__): "value in self._inv_dict" raises TypeError. *)
 Inductive op := OSet (kt : tup) (v : val) | ODel (k : key) | ODelAttr (k : key)
               | OSetBad (kt : tup) | OObs (q : query)
               (* "sd.default = value" and "del sd.default" done by the user (StrategyDict only) *)
-              | OSetDefault (v : val) | ODelDefault.
+              | OSetDefault (v : val) | ODelDefault
+              (* "del d[kt]" with a TUPLE (empty, 1-tuple, a stored key tuple, any other): self._keys_dict[kt]
+                 (StrategyDict: self.key2keys(kt)) raises KeyError, tuples are never keys of _keys_dict *)
+              | ODelT (kt : tup).
 
 Definition is_err {T} (r : res T) : bool := match r with Ok _ => false | _ => true end.
 (* does the observation raise?  None of them writes anything. *)
@@ -182,6 +189,8 @@ Definition qraises (d : mkd) (q : query) : bool :=
   | QV2K _ => false
   | QPure => false
   | QBad => true
+  | QTup kt => negb (amem tup_eqb kt (store d))
+  | QNo => true
   end.
 
 Definition mstep (d : mkd) (o : op) : mkd * bool :=   (* bool: the operation raised *)
@@ -195,6 +204,7 @@ Definition mstep (d : mkd) (o : op) : mkd * bool :=   (* bool: the operation rai
   | OObs q => (d, qraises d q)
   | OSetDefault _ => (d, false)      (* a plain attribute of a MultiKeyDict; not part of the views *)
   | ODelDefault => (d, true)         (* no such attribute (OSetDefault is never generated for a MultiKeyDict) *)
+  | ODelT _ => (d, true)
   end.
 Definition sstep (s : sd) (o : op) : sd * bool :=
   match o with
@@ -212,6 +222,7 @@ Definition sstep (s : sd) (o : op) : sd * bool :=
   | ODelDefault => match default s with
                    | Some _ => (SD (sd_d s) (attrs s) None, false)
                    | None => (s, true) end
+  | ODelT _ => (s, true)
   end.
 
 (* what a user can observe after a step, over key universe ks and value universe vs *)
